@@ -41,7 +41,6 @@ void ares_cancel(ares_channel_t *channel)
 
   if (ares_llist_len(channel->all_queries) > 0) {
     ares_llist_node_t *node = NULL;
-    ares_llist_node_t *next = NULL;
 
     /* Swap list heads, so that only those queries which were present on entry
      * into this function are cancelled. New queries added by callbacks of
@@ -57,21 +56,25 @@ void ares_cancel(ares_channel_t *channel)
       goto done;                        /* LCOV_EXCL_LINE: OutOfMemory */
     }
 
-    node = ares_llist_node_first(list_copy);
-    while (node != NULL) {
+    /* Always take the first remaining entry rather than walking the list with
+     * a cached next pointer: a callback may start a new request that fails to
+     * send and closes a connection, which can complete (and unlink) other
+     * queries still waiting here to be cancelled. */
+    while ((node = ares_llist_node_first(list_copy)) != NULL) {
       ares_query_t *query;
-
-      /* Cache next since this node is being deleted */
-      next = ares_llist_node_next(node);
 
       query                   = ares_llist_node_claim(node);
       query->node_all_queries = NULL;
 
+      /* Also take it off its connection and the timeout list.  A new request
+       * made by the callback may fail to send and close that connection, which
+       * requeues everything still waiting on it: this query would be sent
+       * again and could complete (callback, free) a second time. */
+      ares_query_remove_from_conn(query);
+
       /* NOTE: its possible this may enqueue new queries */
       query->callback(query->arg, ARES_ECANCELLED, 0, NULL);
       ares_free_query(query);
-
-      node = next;
     }
 
     ares_llist_destroy(list_copy);
